@@ -12,6 +12,7 @@ import (
 )
 
 type genCfg struct {
+	lastSet []string // the previous generated SET (for re-issuing it with another deadline)
 	client  int      // makes generated values unique across clients
 	keys    []string // collection names
 	freeIDs []string // ids that may hold any object kind
@@ -126,6 +127,52 @@ func (g *genCfg) geohash(r *rand.Rand) string {
 }
 
 func (g *genCfg) setCmd(r *rand.Rand, key, id string) Cmd {
+	if c, ok := g.resetDeadline(r); ok {
+		return c
+	}
+	c := g.setCmdFresh(r, key, id)
+	g.lastSet = append([]string(nil), c.Args...)
+	return c
+}
+
+// resetDeadline re-issues the previous SET with the same value and fields and only its
+// deadline changed (added, moved or removed): same object, other TTL.
+func (g *genCfg) resetDeadline(r *rand.Rand) (Cmd, bool) {
+	if len(g.lastSet) == 0 || len(g.exVals) == 0 || r.Intn(8) != 0 {
+		return Cmd{}, false
+	}
+	var a []string
+	had := false
+	for i := 0; i < len(g.lastSet); i++ {
+		switch strings.ToUpper(g.lastSet[i]) {
+		case "EX":
+			had = true
+			i++
+			continue
+		case "NX", "XX":
+			continue
+		}
+		a = append(a, g.lastSet[i])
+	}
+	if len(a) < 5 {
+		return Cmd{}, false
+	}
+	if !had || r.Intn(2) == 0 {
+		// insert EX before the value keyword (the last keyword of POINT/BOUNDS/HASH/OBJECT/STRING)
+		for i := 3; i < len(a); i++ {
+			switch strings.ToUpper(a[i]) {
+			case "POINT", "BOUNDS", "HASH", "OBJECT", "STRING":
+				b := append([]string(nil), a[:i]...)
+				b = append(b, "EX", pick(r, g.exVals))
+				a = append(b, a[i:]...)
+				i = len(a)
+			}
+		}
+	}
+	return Cmd{Args: a}, true
+}
+
+func (g *genCfg) setCmdFresh(r *rand.Rand, key, id string) Cmd {
 	args := []string{"SET", key, id}
 	nf := 0
 	if r.Intn(3) == 0 {
